@@ -4,21 +4,6 @@ import JV.Spec.Rfc7386
 namespace JV
 namespace Drv
 
-mutual
-  /-- canonical form of a value as `jsoncons::json` stores it: members sorted by key, first duplicate wins -/
-  def sortKeys : JVal → JVal
-    | .arr xs => .arr (sortList xs)
-    | .obj ms => .obj (sortMembers ms)
-    | v => v
-  def sortList : List JVal → List JVal
-    | [] => []
-    | x :: xs => sortKeys x :: sortList xs
-  def sortMembers : List (Bytes × JVal) → List (Bytes × JVal)
-    | [] => []
-    | (k, x) :: ms =>
-      let rest := sortMembers ms
-      Assoc.insertSorted k (sortKeys x) (Assoc.erase k rest)
-end
 
 /-- `mp apply <j|o> <target> <patch>` / `mp diff <j|o> <source> <target>` / `mp difflaw <j|o> <source> <target>` -/
 def mergePatchLine : List String → String
